@@ -7033,8 +7033,17 @@ hawk_val_t* hawk_rtx_evalcall (
 						 * if argspec is 'R', it may fail. if it happens, don't copy the value */
 						if (HAWK_LIKELY(r >= 0))
 						{
+							hawk_val_t* cur;
+
 							HAWK_RTX_INIT_REF_VAL (&refv, p->type - HAWK_NDE_NAMED, ref, 9); /* initialize a fake reference variable. 9 chosen randomly */
-							if (HAWK_UNLIKELY(hawk_rtx_setrefval(rtx, &refv, av) <= -1))
+
+							/* a parameter the function has not assigned to still holds the value
+							 * the argument has. setting it back is an assignment all the same and,
+							 * for $N and NF, one that rebuilds $0 or adds fields:
+							 *   function f(&x) { return x "!" } { f($7); print NF }
+							 * leave the argument alone in that case */
+							cur = (refv.id == HAWK_VAL_REF_POS)? POS_VAL(rtx, (hawk_int_t)(hawk_oow_t)ref): hawk_rtx_getrefval(rtx, &refv);
+							if (cur != av && HAWK_UNLIKELY(hawk_rtx_setrefval(rtx, &refv, av) <= -1))
 							{
 								n = -1;
 								ADJERR_LOC (rtx, &call->loc);
